@@ -5,7 +5,9 @@ ASSUMPTIONS = ["budget: 10 s wall clock per program (all texts) against a model 
                "process loops are outside the property"]
 
 NULLABLE = ["maybe 'a'", "at least 0 'a'", "line start", "line end", "file start", "word start", "not line start", "not file end",
-            "()", "maybe 'a' fewest", "at least 0 'a' fewest", "at most 2 'a'", "'a'", "not 'a'", "any"]
+            "()", "maybe 'a' fewest", "at least 0 'a' fewest", "at most 2 'a'", "'a'", "not 'a'", "any",
+            # atoms that consume in a loop of their own inside one instruction
+            "whole word", "whole line", "whole file", "not whole word", "word end", "file end", "not word start"]
 
 
 def wrap(p):
@@ -27,7 +29,7 @@ def run(ctx):
         progs = progs[:len(NULLABLE)] + ctx.rng.sample(progs[len(NULLABLE):], 250)
     texts = list(all_texts("a\n", 3 if quick else 4))
     extra = [{"src": "find all " + p, "texts": texts} for p in progs]
-    cases, gres, dis, stats = run_generated(ctx, 100 if quick else 3000, extra=extra, spec=False)
+    cases, gres, dis, stats = run_generated(ctx, 100 if quick else 15000, extra=extra, spec=False)
     ctx.coverage["rule"] = ("all programs up to nesting depth %d over nullable bodies (maybe, at least 0, anchors, empty group, negated anchors, fewest variants) "
                             "x all texts over {a,\\n} up to length %d; the implementation must return within the budget whenever the model does; "
                             "non-trivial = distinct (program,text) with a match" % (3, 3 if quick else 4))
